@@ -480,7 +480,7 @@ pub fn run(args: &Args) -> Report {
         ks: if thorough { vec![0, 1, 2, 3, 4, 5] } else { vec![0, 1, 2] },
         env: 0,
         fault: 1,
-        total_wall: Duration::from_secs(if thorough { 1500 } else { 50 }),
+        total_wall: Duration::from_secs(if thorough { 1500 } else { 100 }),
         max_execs_per_case: 500_000,
         required_witnesses: W_TRUE | W_FALSE | W_NEVER_PENDING | W_OUT_OF_ORDER | W_DISABLED | W_FAULT | W_QUEUE_FULL_WAIT | W_CANCELLED | W_COLLIDED | W_SAME_ID_AGAIN | W_LATE_REQUEST,
         adaptive: thorough,
